@@ -459,6 +459,6 @@ _meta_add("C07", functions=["store::fs::Store::{tables, modify_impl} (query c06_
 _meta_add("C11", functions=["net::codec::BobState::run (query c10_bob_steps: an allowed request is on record)"])
 _meta_add("C08", functions=["store::fs::bounds::RecordsBounds::clamp_to_namespace (Kani bounds_clamp_*)"], bounds="c08_get_range: range end points anywhere in the id space (two passes: inside the document / anywhere)")
 _meta_add("C01", functions=["store::fs::bounds::RecordsBounds::clamp_to_namespace (Kani bounds_clamp_*)", "store::fs::StoreInstance::get_range for peer-chosen end points (query c08_get_range)"])
-_meta_add("C13", functions=["store::fs::Store::has_news_for_us executed over symbolic head rows (query c13_news_semantic)"], bounds="c13_news_semantic: K1 <= 2 own head rows x K2 <= 2 reported heads (thorough tier: <= 4 x <= 4), authors / timestamps symbolic integers")
+_meta_add("C13", functions=["store::fs::Store::has_news_for_us executed over symbolic head rows (query c13_news_semantic)"], bounds="c13_news_semantic: K1 <= 3 own head rows x K2 <= 3 reported heads (thorough tier: <= 4 x <= 4), authors / timestamps symbolic integers")
 _meta_add("C09", functions=["store::<impl FromStr for FilterKind>::from_str on an arbitrary SMT string (query c09_filter_from_str_total), Display/FromStr round trip (query c15_filter_text)"])
 _meta_add("C16", functions=["actor::Actor::close (query c14_gating part C)", "store::fs::Store::register_useful_peer::{closure#0} (query c17_register_step)"])
